@@ -46,6 +46,7 @@ structure State where
   lastClean : Nat := 0
   execs : List Nat := []                    -- requests executing (goroutine inside r())
   zombies : Nat := 0                        -- finished requests that still hold their worker slot
+  lastErr : List (Nat × (Nat × Nat)) := []  -- ghost: id ↦ (error, expiresAt) when the last execution of id failed
   thr : List (Nat × TState) := []
   deriving Repr
 
@@ -117,12 +118,14 @@ def step (s : State) : Act → State
     | _ => s
   | .finishOk id =>
     if id ∈ s.execs then
-      { s with execs := s.execs.erase id, pending := s.pending.erase id, zombies := s.zombies + 1 }
+      { s with execs := s.execs.erase id, pending := s.pending.erase id, zombies := s.zombies + 1,
+               lastErr := adel s.lastErr id }
     else s
   | .finishErr id e nf =>
     if id ∈ s.execs then
       { s with execs := s.execs.erase id, pending := s.pending.erase id, zombies := s.zombies + 1,
-               errors := (id, (e, s.now + (if nf then s.cfg.nfTTL else s.cfg.errTTL))) :: s.errors }
+               errors := (id, (e, s.now + (if nf then s.cfg.nfTTL else s.cfg.errTTL))) :: s.errors,
+               lastErr := (id, (e, s.now + (if nf then s.cfg.nfTTL else s.cfg.errTTL))) :: s.lastErr }
     else s
   | .releaseWorker => if 0 < s.zombies then { s with zombies := s.zombies - 1 } else s
 
